@@ -147,6 +147,18 @@ def run(ctx):
                         ctx.violation('impl-counterexample', 'comparison %s of Quantity(%r, %r) with Quantity(%r, %r) gives %r, expected %r' % (name, a, ua, b, ub, got, want),
                                       {'kind': 'cmp-units', 'op': name, 'a': repr(a), 'ua': repr(ua), 'b': repr(b), 'ub': repr(ub)})
                         return
+    # the SAME Quantity object on both sides compares as its value compared with itself (nan == nan is False, nan != nan is True)
+    for a in list(nums) + [float('nan'), float('inf'), -float('inf'), -0.0]:
+        for u in (None, 'kg', ''):
+            q = Q(a, u)
+            for name, f in CMPOPS.items():
+                ctx.coverage['evaluations'] += 1
+                ctx.count('cmp-same-object')
+                got, want = attempt(f, q, q), attempt(f, a, a)
+                if got != want:
+                    ctx.violation('impl-counterexample', 'comparison %s of Quantity(%r, %r) with ITSELF (the same object on both sides) gives %r, the value compared with itself gives %r'
+                                  % (name, a, u, got, want), {'kind': 'cmp-same-object', 'op': name, 'a': repr(a), 'u': repr(u)})
+                    return
     for a in nums:
         qa = Q(a, u1)
         for b in nums:
@@ -224,6 +236,27 @@ def run(ctx):
 def replay(ctx, data):
     import hszinc
     Q = hszinc.Quantity
+    if data.get('kind') == 'cmp-same-object':
+        v = eval(data['a'], {'inf': float('inf'), 'nan': float('nan')})
+        q = Q(v, eval(data['u']))
+        f = CMPOPS[data['op']]
+        ctx.coverage['evaluations'] += 1
+        impl, plain = attempt(f, q, q), attempt(f, v, v)
+        print('Quantity with itself:', impl, ' value with itself:', plain)
+        if impl != plain:
+            ctx.violation('impl-counterexample', 'comparison %s of a Quantity with itself: %r, the value with itself %r' % (data['op'], impl, plain), data)
+        return
+    if data.get('kind') == 'cmp-units':
+        ev = lambda t: eval(t, {'inf': float('inf'), 'nan': float('nan')})
+        a_, ua, b_, ub = ev(data['a']), ev(data['ua']), ev(data['b']), ev(data['ub'])
+        f = CMPOPS[data['op']]
+        ctx.coverage['evaluations'] += 1
+        got = attempt(f, Q(a_, ua), Q(b_, ub))
+        want = attempt(f, a_, b_) if (ua == ub and type(ua) is type(ub)) else ('raise', 'TypeError')
+        print('Quantities:', got, ' expected:', want)
+        if got != want:
+            ctx.violation('impl-counterexample', 'comparison %s of Quantity(%r, %r) with Quantity(%r, %r) gives %r, expected %r' % (data['op'], a_, ua, b_, ub, got, want), data)
+        return
     a = eval(data['v'], {'inf': float('inf'), 'nan': float('nan')})
     b = eval(data['x'], {'inf': float('inf'), 'nan': float('nan')})
     kind, name, shape = data['kind'], data['op'], data.get('shape', 'Qx')
